@@ -811,30 +811,17 @@ def side_values(rng, kind, n_extra):
 
 
 def deccmp_class(tb, l, r, impl, spec):
-    """impl (== engine) differs from spec: the class of findings/C05num.json, or None"""
+    """impl (== engine) differs from spec: the class of findings/C05num.json, or None.  bigint ~ decimal64 through Float64,
+    ubigint ~ decimal failing and the i8 overflow of decimal_bind have no class any more (fixed: 2b7187fb9, 2085adc17, 3e3b1e8ef)"""
     kinds = (l[0], r[0])
     if "f" in kinds:
         d = l if l[0] == "d" else r
         if d[-1] is not None and (abs(d[3]) > (1 << 53) or d[2] > 22):
             return "compare-decimal-float64-double-rounding"
         return None
-    meta = lambda o: (o[1], o[2]) if o[0] == "d" else ({8: 3, 16: 5, 32: 10, 64: 19}[INT_TYPES[o[1]][0]] if not (o[1] == "u64") else tb.get("u64_dec_precision") or 19, 0)
+    meta = lambda o: (o[1], o[2]) if o[0] == "d" else ({8: 3, 16: 5, 32: 10, 64: 19}[INT_TYPES[o[1]][0]] if not (o[1] == "u64") else tb.get("u64_dec_precision") or 20, 0)
     (p1, s1), (p2, s2) = meta(l), meta(r)
     is64 = lambda o: o[0] == "i" and INT_TYPES[o[1]][0] == 64
-    d64 = lambda o: o[0] == "d" and o[1] <= 18
-    if tb.get("decbind_i8") == 1 and (p1 - s1 > 127 or p2 - s2 > 127) and impl in ("panic", "err"):
-        return "decimal-bind-i8-overflow"
-    if tb.get("wide_dec128") == 0:
-        for a, b in ((l, r), (r, l)):
-            if is64(a) and a[1] == "i64" and d64(b):
-                ok = a[-1] is not None and b[-1] is not None and abs(a[-1]) >= (1 << 53) and impl not in ("err", "panic")
-                return "compare-int64-decimal64-via-float64" if ok else None
-            if is64(a) and a[1] == "u64" and d64(b) and impl == "err":
-                return "uint64-decimal-cast-fails"
-    if tb.get("u64_dec_precision") == 19:
-        for a in (l, r):
-            if a[0] == "i" and a[1] == "u64" and a[-1] is not None and a[-1] >= 10 ** 19 and impl == "err":
-                return "uint64-decimal-cast-fails"
     kd_max = 38 if (p1 > 18 or p2 > 18 or (tb.get("wide_dec128") == 1 and (is64(l) or is64(r)))) else 18
     if impl == "err" and spec != "err" and max(p1 - s1, p2 - s2) + max(s1, s2) > kd_max:
         return "decimal-compare-clamped-precision-error"
@@ -1004,45 +991,80 @@ def stage_deccmp(rng, tier, mode, tb, gbin, gmodel, stats, known):
         cells = outs["literal"][1][0]
         for n, (i, j) in enumerate(litp):
             judge(lv, rv, res, i, j, "".join(enc(c) for c in cells[8 * n:8 * n + 8]), "literal", one_sql(lv, rv, i, j, "="))
-    # ---- UNION ALL of differently typed decimals: the values must survive; ORDER BY / GROUP BY over them
+    # ---- UNION ALL / VALUES / CASE over differently typed decimals: every value must survive; ORDER BY / GROUP BY over the union
     ucases, umeta = [], []
-    for (a, b) in [((10, 2), (4, 1)), ((4, 1), (10, 2)), ((10, 2), (20, 0)), ((18, 0), (18, 18)), ((10, 0), (10, 2)), ((38, 10), (20, 2)), ((4, 2), (4, 2))]:
+    for (a, b) in [((10, 2), (4, 1)), ((4, 1), (10, 2)), ((10, 2), (20, 0)), ((18, 0), (18, 18)), ((10, 0), (10, 2)), ((38, 10), (20, 2)), ((4, 2), (4, 2)),
+                   ((2, 1), (3, 2))]:
         va = [v for v in dec_values(rng, a[0], a[1], 0)][:8]
         vb = [v for v in dec_values(rng, b[0], b[1], 0)][:8]
         ta, tbt = "dec(%d,%d)" % a, "dec(%d,%d)" % b
-        stmts = [gen.create_table("x", [("a", ta)]), gen.create_table("y", [("b", tbt)])] + \
+        la = [sql_lit(ta, "D%d/%d/%d" % (v, a[0], a[1])) for v in va]
+        lb = [sql_lit(tbt, "D%d/%d/%d" % (v, b[0], b[1])) for v in vb]
+        n = min(len(va), len(vb))
+        stmts = [gen.create_table("x", [("a", ta)]), gen.create_table("y", [("b", tbt)]), gen.create_table("z", [("i", "i32"), ("a", ta), ("b", tbt)])] + \
             insert_rows("x", [("a", ta)], [["D%d/%d/%d" % (v, a[0], a[1])] for v in va]) + insert_rows("y", [("b", tbt)], [["D%d/%d/%d" % (v, b[0], b[1])] for v in vb]) + \
+            insert_rows("z", [("i", "i32"), ("a", ta), ("b", tbt)], [["I%d" % i, "D%d/%d/%d" % (va[i], a[0], a[1]), "D%d/%d/%d" % (vb[i], b[0], b[1])] for i in range(n)]) + \
             ["select v from (select a as v from x union all select b from y) t order by v",
-             "select v, count(*) from (select a as v from x union all select b from y) t group by v"]
+             "select v, count(*) from (select a as v from x union all select b from y) t group by v",
+             "select v from (values %s) t(v)" % ", ".join("(%s)" % l for pair in zip(la, lb) for l in pair),
+             "select i, case when i % 2 = 0 then a else b end, case when i % 2 = 1 then a when i = 0 then b else b end from z"]
         ucases.append({"id": "dunion-%d" % len(ucases), "mode": "det", "partitions": 1, "stmts": stmts, "timeout_s": 60})
-        umeta.append((a, b, va, vb, stmts))
+        umeta.append((a, b, va, vb, n, stmts))
     frac = lambda cell: Fraction(int(cell[1:].split("/")[0])) / Fraction(10) ** int(cell[1:].split("/")[2])
-    for (a, b, va, vb, stmts), r in zip(umeta, common.run_harness(gbin, "sql", ucases, timeout=300)):
-        exp = sorted([Fraction(v) / Fraction(10) ** a[1] for v in va] + [Fraction(v) / Fraction(10) ** b[1] for v in vb])
-        o1, o2 = case_stmt(r, -2, len(stmts)), case_stmt(r, -1, len(stmts))
-        stats["evaluations"] += 2
+    fa = lambda v, t: Fraction(v) / Fraction(10) ** t[1]
+
+    def known_vc(d):
+        k = known.setdefault("values-case-decimal-unification-rounds", {"count": 0, "example": d})
+        k["count"] += 1
+
+    for (a, b, va, vb, n, stmts), r in zip(umeta, common.run_harness(gbin, "sql", ucases, timeout=300)):
+        exp = sorted([fa(v, a) for v in va] + [fa(v, b) for v in vb])
+        o1, o2, o3, o4 = [case_stmt(r, k, len(stmts)) for k in (-4, -3, -2, -1)]
+        stats["evaluations"] += 4
         need = max(a[0] - a[1], b[0] - b[1]) + max(a[1], b[1])
-        info = {"kind": "decimal-union", "types": ["dec(%d,%d)" % a, "dec(%d,%d)" % b], "stmts": stmts[:2] + ["..."] + stmts[-2:]}
-        if o1[0] != "ok" or o2[0] != "ok":
-            if need <= 38:
-                d = dict(info, what="UNION ALL of two decimal types failed although decimal(%d,%d) holds both" % (need, max(a[1], b[1])), outcome=list(o1)[:2])
-                if o1[0] == "err" and "Failed cast decimal" in str(o1[1]):
-                    # the same unification to one side's type: the other side's values do not fit it
-                    k = known.setdefault("setop-decimal-unification-rounds", {"count": 0, "example": d})
-                    k["count"] += 1
-                else:
-                    viol.append(d)
+        info = {"kind": "decimal-unification", "types": ["dec(%d,%d)" % a, "dec(%d,%d)" % b]}
+        if need > 38:
             continue
-        got = [frac(row[0]) for row in o1[1]]
-        grp = sorted((frac(row[0]), int(row[1][1:])) for row in o2[1])
-        egrp = sorted((v, exp.count(v)) for v in set(exp))
-        if got != exp or grp != egrp:
-            d = dict(info, engine=[str(x) for x in got[:10]], definition=[str(x) for x in exp[:10]])
-            if sorted(got) == got and len(got) == len(exp):
-                k = known.setdefault("setop-decimal-unification-rounds", {"count": 0, "example": dict(d, outcome="values changed")})
-                k["count"] += 1
+        # UNION ALL (fixed: 2b1fb11f8): any lost digit is a violation
+        if o1[0] != "ok" or o2[0] != "ok":
+            viol.append(dict(info, what="UNION ALL of two decimal types failed although decimal(%d,%d) holds both" % (need, max(a[1], b[1])),
+                             outcome=list(o1 if o1[0] != "ok" else o2)[:2], stmts=stmts[:2] + ["..."] + stmts[-4:-2]))
+        else:
+            got = [frac(row[0]) for row in o1[1]]
+            grp = sorted((frac(row[0]), int(row[1][1:])) for row in o2[1])
+            if got != exp or grp != sorted((v, exp.count(v)) for v in set(exp)):
+                viol.append(dict(info, what="UNION ALL / ORDER BY / GROUP BY over decimals of two types does not return the input values",
+                                 engine=[str(x) for x in got[:10]], definition=[str(x) for x in exp[:10]], stmts=stmts[:2] + ["..."] + stmts[-4:-2]))
+        # VALUES
+        expv = [x for i in range(n) for x in (fa(va[i], a), fa(vb[i], b))]
+        d = dict(info, stmts=[stmts[-2]])
+        if o3[0] != "ok":
+            if o3[0] == "err" and "Failed cast decimal" in str(o3[1]):
+                known_vc(dict(d, outcome=list(o3)[:2]))
             else:
-                viol.append(dict(d, what="UNION ALL / ORDER BY over decimals of two types"))
+                viol.append(dict(d, what="VALUES over two decimal types failed", outcome=list(o3)[:2]))
+        elif [frac(row[0]) for row in o3[1]] != expv:
+            got = [frac(row[0]) for row in o3[1]]
+            if len(got) == len(expv):
+                known_vc(dict(d, engine=[str(x) for x in got[:8]], definition=[str(x) for x in expv[:8]], outcome="values changed"))
+            else:
+                viol.append(dict(d, what="VALUES over two decimal types: wrong number of rows"))
+        # CASE
+        expc = {i: (fa(va[i], a) if i % 2 == 0 else fa(vb[i], b), fa(va[i], a) if i % 2 == 1 else fa(vb[i], b)) for i in range(n)}
+        d = dict(info, stmts=stmts[:3] + ["..."] + [stmts[-1]])
+        if o4[0] != "ok":
+            if o4[0] == "err" and ("Failed cast decimal" in str(o4[1]) or "two different types" in str(o4[1])):
+                known_vc(dict(d, outcome=list(o4)[:2]))
+            else:
+                viol.append(dict(d, what="CASE over two decimal types failed", outcome=list(o4)[:2]))
+        else:
+            gotc = {int(row[0][1:]): (frac(row[1]), frac(row[2])) for row in o4[1]}
+            if gotc != expc:
+                bad = [i for i in expc if gotc.get(i) != expc[i]][:1]
+                if len(gotc) == len(expc):
+                    known_vc(dict(d, engine=[str(x) for x in gotc.get(bad[0], ())], definition=[str(x) for x in expc[bad[0]]], outcome="values changed"))
+                else:
+                    viol.append(dict(d, what="CASE over two decimal types: wrong rows"))
     return viol
 
 
